@@ -3,6 +3,7 @@ package rules
 import (
 	"go/token"
 	"go/types"
+	"strings"
 
 	"gldapverif/an"
 
@@ -40,6 +41,62 @@ func syncCallees(fn *ssa.Function) []*ssa.Function {
 		}
 		if f := an.StaticCallee(ci.Common()); f != nil && an.InModule(f) && len(f.Blocks) > 0 {
 			out = append(out, f)
+			continue
+		}
+		out = append(out, invokeTargets(fn.Prog, ci.Common())...)
+	}
+	return out
+}
+
+// invokeTargets resolves a method call through an interface declared in the
+// module to the methods of every module type that implements it (class
+// hierarchy resolution restricted to the module's own interfaces; interfaces
+// of other packages - io.Writer, net.Conn, hclog.Logger - are library code).
+func invokeTargets(prog *ssa.Program, cc *ssa.CallCommon) []*ssa.Function {
+	if !cc.IsInvoke() {
+		return nil
+	}
+	nt, ok := cc.Value.Type().(*types.Named)
+	if !ok || nt.Obj().Pkg() == nil || !strings.HasPrefix(nt.Obj().Pkg().Path(), an.ModPath) {
+		return nil
+	}
+	iface, ok := nt.Underlying().(*types.Interface)
+	if !ok {
+		return nil
+	}
+	var out []*ssa.Function
+	for _, pkg := range prog.AllPackages() {
+		if !strings.HasPrefix(pkg.Pkg.Path(), an.ModPath) {
+			continue
+		}
+		for _, mem := range pkg.Members {
+			tn, ok := mem.(*ssa.Type)
+			if !ok {
+				continue
+			}
+			for _, t := range []types.Type{tn.Type(), types.NewPointer(tn.Type())} {
+				if types.IsInterface(t) || !types.Implements(t, iface) {
+					continue
+				}
+				sel := prog.MethodSets.MethodSet(t).Lookup(cc.Method.Pkg(), cc.Method.Name())
+				if sel == nil {
+					continue
+				}
+				if f := prog.MethodValue(sel); f != nil {
+					// promoted-method wrappers: follow to the declared method
+					if f.Synthetic != "" {
+						for _, ci := range an.Calls(f) {
+							if g := an.StaticCallee(ci.Common()); g != nil && len(g.Blocks) > 0 && an.InModule(g) {
+								out = append(out, g)
+							}
+						}
+						continue
+					}
+					if len(f.Blocks) > 0 {
+						out = append(out, f)
+					}
+				}
+			}
 		}
 	}
 	return out
